@@ -19,7 +19,7 @@ class URLType(DashElement):
 
     async def validate(self) -> None:
         if self.sourceURL is not None:
-            url = urlparse(self.souceURL)
+            url = urlparse(self.sourceURL)
             self.attrs.check_includes(
                 {'http', 'https'}, url.scheme,
                 template=r'Expected HTTP scheme {0} but got {1}')
